@@ -8,6 +8,8 @@ import PercevalModel.Lemmas.C15FF
 import PercevalModel.Lemmas.C15Text
 import PercevalModel.Lemmas.C15PS
 import PercevalModel.Lemmas.C15PSW
+import PercevalModel.Lemmas.C15PSR
+import PercevalModel.Lemmas.C15TextW
 import PercevalModel.Lemmas.C15Tree
 import PercevalModel.Lemmas.C15F32
 
@@ -535,6 +537,19 @@ example : decodeState "|{a:1,b:2}{_:1}{_:1}3,{P:H}>".toList = some witState := b
 /-- boundary: the empty state vector has no text the reader accepts -/
 theorem empty_statevector_not_readable : decodeSV (encodeSV []) = none := by decide
 
+/-- WAVE 7.  The hypothesis `hn` of `roundtrip_svdistribution` (the keys stay distinct AFTER rounding to the grid) is
+necessary: `0.6|1,0>+0.8|0,1>` (probability 1/2) and `(0.6+1e-8)|1,0>+0.8|0,1>` (probability 1/4) are two distinct
+keys that satisfy every other hypothesis, print identically, and the reader's dict assignment keeps one key with the
+last probability — the conclusion of the theorem fails. -/
+theorem roundtrip_svdistribution_needs_distinct_rounded_keys :
+    ((∀ e ∈ witSVD, e.1 ≠ []) ∧ (∀ e ∈ witSVD, ∀ t ∈ e.1, FState.WF t.2.2 = true) ∧
+      (∀ e ∈ witSVD, uniform (e.1.map (·.2.2.length)) = true) ∧
+      uniform (witSVD.map (svModes ·.1)) = true ∧ (witSVD.map Prod.fst).Nodup ∧
+      ¬ (witSVD.map fun e => e.1.map roundTerm).Nodup) ∧
+    decodeSVD (encodeSVD witSVD) = some witSVDRead ∧
+    decodeSVD (encodeSVD witSVD) ≠ some (witSVD.map fun e => (e.1.map roundTerm, gridVal e.2)) :=
+  ⟨witSVD_hyps, witSVD_read, witSVD_collapses⟩
+
 end Txt
 
 /-! ## Post-selection expressions (`Model/C15PS.lean`) -/
@@ -567,6 +582,60 @@ theorem roundtrip_postselect_fails_on_current_code :
   print_asfound_changes_meaning
 
 example : ∃ e : Expr, e.WF ∧ ¬ e.NotLastFree := ⟨witness, by decide, by decide⟩
+
+/-- WAVE 7.  What `PostSelect(str(ps))` is, for EVERY well-formed expression and the empty PostSelect: the reader
+never raises on the text of the writer as found, and builds `rr x` (`Lemmas/C15PSR.lean`): every negation that is a
+non-last operand swallows the rest of its node — `(a o !b o c o d)` comes back as `(a o !(b o c o d))`, `(!a o b)` as
+`!(a o b)` — at every depth, with any number of `!` in a row. -/
+theorem postselect_asfound_reads_as (x : Option Expr) (h : ∀ e, x = some e → e.WF) :
+    parseTop (printTop false x) = some (x.map rr) :=
+  parseTop_printTop_asfound_eq x h
+
+/-- WAVE 7.  `roundtrip_postselect_asfound_partial` completed to an equivalence: the writer as found round-trips a
+well-formed expression EXACTLY when no negation is a non-last operand of an n-ary node (any position, any depth). -/
+theorem roundtrip_postselect_asfound_iff (x : Expr) (hw : x.WF) :
+    parse (print false x) = some x ↔ x.NotLastFree :=
+  parse_print_asfound_iff x hw
+
+example : ¬ (parse (print false witness) = some witness) :=
+  fun h => absurd ((roundtrip_postselect_asfound_iff witness (by decide)).1 h) (by decide)
+example : parse (print false witnessRead) = some witnessRead :=
+  (roundtrip_postselect_asfound_iff witnessRead (by decide)).2 (by decide)
+example := postselect_asfound_reads_as (some witness) (by intro e h; cases h; decide)
+
+/-- `((![0]==1 & [1]==1) | [2]==1)` -/
+def witnessDrift : Expr :=
+  .nary .or (.cons (.nary .and (.cons (.not (.cond [0] .eq 1)) (.cons (.cond [1] .eq 1) .nil)))
+    (.cons (.cond [2] .eq 1) .nil))
+
+/-- WAVE 7.  The as-found round trip is not even idempotent: the object read back may again contain a negation as a
+non-last operand, so a SECOND serialize/deserialize changes it again (`((!a & b) | c)` → `(!(a & b) | c)` →
+`!((a & b) | c)`, stable from then on). -/
+theorem roundtrip_postselect_asfound_drifts :
+    witnessDrift.WF ∧
+    rr witnessDrift = .nary .or (.cons (.not (.nary .and (.cons (.cond [0] .eq 1) (.cons (.cond [1] .eq 1) .nil))))
+      (.cons (.cond [2] .eq 1) .nil)) ∧
+    rr (rr witnessDrift) = .not (.nary .or (.cons (.nary .and (.cons (.cond [0] .eq 1) (.cons (.cond [1] .eq 1) .nil)))
+      (.cons (.cond [2] .eq 1) .nil))) ∧
+    rr witnessDrift ≠ witnessDrift ∧ rr (rr witnessDrift) ≠ rr witnessDrift ∧
+    rr (rr (rr witnessDrift)) = rr (rr witnessDrift) ∧
+    parse (print false witnessDrift) = some (rr witnessDrift) ∧
+    parse (print false (rr witnessDrift)) = some (rr (rr witnessDrift)) :=
+  ⟨by decide, by decide, by decide, by decide, by decide, by decide,
+    parse_print_asfound_eq _ (by decide), parse_print_asfound_eq _ (by decide)⟩
+
+/-- WAVE 7.  When every n-ary node of the expression is a `^`, the writer as found may change the tree
+(`PostSelect.__eq__` is `False`) but never the predicate: `¬a ⊕ b ⊕ … = ¬(a ⊕ b ⊕ …)`, on every state. -/
+theorem roundtrip_postselect_asfound_xor_meaning (x : Expr) (hw : x.WF) (hx : x.xorOnly = true) (st : List Nat) :
+    (parse (print false x)).map (fun y => eval y st) = some (eval x st) :=
+  eval_asfound_xorOnly x hw hx st
+
+/-- non-vacuity: a `^`-only expression with a negation in first position (its tree does change) -/
+example :
+    let x : Expr := .nary .xor (.cons (.not (.cond [0] .eq 1)) (.cons (.cond [1] .eq 1) (.cons (.cond [2] .eq 1) .nil)))
+    x.WF ∧ x.xorOnly = true ∧ ¬ x.NotLastFree := by decide
+/-- … and `&` is outside it: `witness` changes its predicate (`roundtrip_postselect_fails_on_current_code`) -/
+example : witness.xorOnly = false := by decide
 
 /-- The serializer AS WRITTEN (`_postselect_to_str`: one `re.sub` pass over `str(ps)` with the pattern
 `! |\(|\)|\[[^]]*\] \S+ \d+` and the `pending` / `enclosing` bookkeeping, `Model/C15PSW.lean`) writes exactly the text of
